@@ -172,6 +172,54 @@ def r1_who_may_write(ctx):
         ctx.check(ok, st.qual, "assigns through the bucket's validating property" if ok else f"Detector.{b} setter writes a private field: {norm(bad[0])[:60] if bad else 'no validated assignment'}", where=st, node=(bad or good or [st.node])[0])
 
 
+def r2_rejected_assignment_keeps_content(ctx):
+    """In every method of a container, nothing that changes the content (self.empty(), a store to _array) can be followed on some path by a validation point that may still raise (a validating property assignment, _validate(...), a raising guard): a rejected assignment must leave the previous content untouched."""
+    n = 0
+    for ci in family(ctx):
+        for f in ci.all_funcs():
+            if f.name in ("__init__",) or not f.params:
+                continue
+            self_ = f.params[0]
+            g = ctx.cfg(f)
+            mut = []
+            val = []
+            for node in g.nodes:
+                st = node.ast
+                if st is None or node.kind not in ("stmt", "test"):
+                    continue
+                if node.kind == "test":
+                    from sa.cfg import ends_in_raise
+
+                    if isinstance(st, ast.If) and ends_in_raise(st.body):
+                        val.append(node)
+                    continue
+                for c in [x for x in ast.walk(st) if isinstance(x, ast.Call)]:
+                    d = dotted(c.func)
+                    if d == f"{self_}.empty":
+                        mut.append(node)
+                    if d == f"{self_}._validate":
+                        val.append(node)
+                if isinstance(st, (ast.Assign, ast.AnnAssign, ast.AugAssign)):
+                    tg = st.targets if isinstance(st, ast.Assign) else [st.target]
+                    for t in tg:
+                        if dotted(t) == f"{self_}._array":
+                            mut.append(node)
+                        if dotted(t) in (f"{self_}.array", f"{self_}.array_2d", f"{self_}.array_3d"):
+                            val.append(node)
+            if not mut or not val:
+                continue
+            n += 1
+            bad = None
+            for m in mut:
+                reach = g.reachable(g._succs(m, "n"), "n")
+                hit = [v for v in val if v in reach and v is not m]
+                if hit:
+                    bad = (m, hit[0])
+                    break
+            ctx.check(bad is None, f"{f.qual}#keeps-content", "content is only changed after the last point that can reject the value" if bad is None else f"`{norm(bad[0].ast)[:50]}` changes the content before `{norm(bad[1].ast)[:50]}` can still reject the new value: a refused assignment destroys the previous content", where=f, node=bad[0].ast if bad else f.node)
+    ctx.floor(n, 4)
+
+
 FLOATS = {"np.float16", "np.float32", "np.float64", "float"}
 UINTS = {"np.uint8", "np.uint16", "np.uint32", "np.uint64"}
 
@@ -402,4 +450,4 @@ def r5_equality(ctx):
             ctx.fail(ci.qual + ".__eq__", "unreviewed override of __eq__", where=ci, node=ci.methods["__eq__"].node)
 
 
-RULES = [r1_who_may_write, r3_type_tables, r4_reading_empty_raises, r5_equality]
+RULES = [r1_who_may_write, r2_rejected_assignment_keeps_content, r3_type_tables, r4_reading_empty_raises, r5_equality]
